@@ -384,6 +384,21 @@ func returnErrClasses(v ssa.Value, depth int) []errClass {
 			if g, ok := x.X.(*ssa.Global); ok {
 				return []errClass{{global: g, edge: -1}}
 			}
+			// defer-spilled result: load of the result cell; use the store that precedes it in the block
+			if a, ok := x.X.(*ssa.Alloc); ok {
+				if v := lastStoreBefore(a, x); v != nil {
+					return returnErrClasses(v, depth+1)
+				}
+				var out []errClass
+				for _, ref := range *a.Referrers() {
+					if st, ok := ref.(*ssa.Store); ok && st.Addr == a {
+						out = append(out, returnErrClasses(st.Val, depth+1)...)
+					}
+				}
+				if len(out) > 0 {
+					return out
+				}
+			}
 		}
 	case *ssa.Phi:
 		var out []errClass
@@ -560,4 +575,19 @@ func checkOptionTable(c *Ctx, r *Report, prefix, pkgRel string, spec map[string]
 		}
 	}
 	return infos
+}
+
+// lastStoreBefore returns the value most recently stored to cell a before instruction at, within at's block.
+func lastStoreBefore(a *ssa.Alloc, at ssa.Instruction) ssa.Value {
+	b := at.Block()
+	var last ssa.Value
+	for _, in := range b.Instrs {
+		if in == at {
+			break
+		}
+		if st, ok := in.(*ssa.Store); ok && st.Addr == ssa.Value(a) {
+			last = st.Val
+		}
+	}
+	return last
 }
